@@ -188,6 +188,22 @@ func (eng *Engine) verifyFunc(fn *ssa.Function, fc *FuncContract, props []string
 				e.note("CONTRACT-ERROR at_return clause applies at no return: %s:%d", cl.File, cl.Line)
 			}
 		}
+		for i, cl := range fc.Lists["before"] {
+			skip := false
+			for _, pr := range cl.Props {
+				if strings.HasPrefix(pr, "@") && !sct.matches(pr[1:]) {
+					skip = true
+				}
+			}
+			if !skip && e.beforeHits[i] == 0 {
+				e.note("CONTRACT-ERROR before clause applies to no call (callee name?): %s:%d", cl.File, cl.Line)
+			}
+		}
+		for _, cl := range fc.Lists["assume_after"] {
+			if e.chanHits["assume_after#"+strings.TrimSpace(cl.Expr)] == 0 {
+				e.note("CONTRACT-ERROR assume_after clause applies to no call: %s:%d", cl.File, cl.Line)
+			}
+		}
 		for _, kind := range []string{"before_send", "assume_recv"} {
 			for i, cl := range fc.Lists[kind] {
 				if e.chanHits[fmt.Sprintf("%s#%d", kind, i)] == 0 {
